@@ -633,14 +633,15 @@ rec_universe!(
 pub fn universe_of(idx: u64) -> &'static str {
     // diagnostic only (never set by a registered command): pin every run to one universe
     if let Ok(u) = std::env::var("VERIF_REC_UNIVERSE") {
-        for name in ["U-KB4", "U-BB4", "U-KB4-ZK", "U-KB4-ZKSALT", "U-KB4-CUSTOM", "U-GL2R"] {
+        for name in ["U-KB4", "U-BB4", "U-KB4-ZK", "U-KB4-ZKSALT", "U-KB4-CUSTOM", "U-KB4-CUSTOM-ZK", "U-GL2R"] {
             if name == u {
                 return name;
             }
         }
     }
     match idx % 12 {
-        0 | 2 | 4 => "U-KB4",
+        0 | 2 => "U-KB4",
+        4 => "U-KB4-CUSTOM-ZK",
         1 | 3 | 5 => "U-BB4",
         6 => "U-KB4-ZK",
         7 => "U-KB4-ZKSALT",
@@ -666,8 +667,12 @@ macro_rules! with_rec_universe {
                 type $U = $crate::rec::kb4zks::U;
                 $body
             }
+            "U-KB4-CUSTOM-ZK" => {
+                type $U = $crate::reccustom::zk::U;
+                $body
+            }
             "U-KB4-CUSTOM" => {
-                type $U = $crate::reccustom::U;
+                type $U = $crate::reccustom::plain::U;
                 $body
             }
             "U-GL2R" => {
